@@ -380,6 +380,10 @@ func wrap(value string) string {
 }
 
 func canEqual(tt types.Type) bool {
+	if named, ok := tt.(*types.Named); ok && equalMethodInputParam(named) != nil {
+		// == would bypass the type's own Equal method
+		return false
+	}
 	t := tt.Underlying()
 	switch typ := t.(type) {
 	case *types.Basic:
